@@ -1,7 +1,10 @@
 import Norad.Spec.Ufo3Vocab
 import Norad.Spec.Ufo3Read
+import Norad.Spec.DSVocab
 import Norad.Generated.Vocab
 import Norad.Lemmas.C05
+import Norad.Lemmas.C05Bridge
+import Norad.Props.C02
 /-!
 # C05 — files are UFO 3 as an independent implementation reads and writes it
 
@@ -222,5 +225,158 @@ example (g : GlyphD) : specRead unaryLex (specWrite unaryRender g) = some g :=
   spec_reader_finds_values unaryLex unaryRender unary_laws.1 unary_laws.2 g
 
 example : fontinfoFields.length = 108 ∧ fontinfoKeys.length = 108 := by decide
+
+/-! ## the designspace document (also listed under C18) -/
+
+/-- the element each struct of `src/designspace.rs` stands for -/
+def dsStructElement : List (String × String) := [
+  ("DesignSpaceDocument", "designspace"), ("Axis", "axis"), ("AxisMapping", "map"), ("Rules", "rules"),
+  ("Rule", "rule"), ("Substitution", "sub"), ("ConditionSet", "conditionset"), ("Condition", "condition"),
+  ("Source", "source"), ("Instance", "instance"), ("Dimension", "dimension")]
+
+/-- fields whose Rust identifier is not the name of the attribute / element they stand for; every other field must be
+    serialised under its own identifier -/
+def dsFieldSpecial : List ((String × String) × String) := [
+  (("Rules", "rules"), "rule"), (("Rule", "condition_sets"), "conditionset"), (("Rule", "substitutions"), "sub"),
+  (("ConditionSet", "conditions"), "condition")]
+
+def dsExpectedName (struct field : String) : String := (dsFieldSpecial.lookup (struct, field)).getD field
+
+/-- one struct of designspace.rs: its element, every field under the name the specification gives what the field holds
+    (so that two swapped renames fail although the set of names is unchanged), attributes among the element's
+    attributes, children among its children, every attribute of the specification covered -/
+def dsStructOk (r : String × String × List (String × String × Bool)) : Bool :=
+  match dsStructElement.lookup r.1 with
+  | none => false
+  | some el =>
+    (r.2.1 == "" || r.2.1 == el) &&
+    (r.2.2.all fun f =>
+      f.2.1 == dsExpectedName r.1 f.1 &&
+      (if f.2.2 then (DSVocab.attrsOf el).contains f.2.1 else (DSVocab.childrenOf el).contains f.2.1)) &&
+    sameSet ((r.2.2.filter (·.2.2)).map (·.2.1)) (DSVocab.attrsOf el) &&
+    sameSet ((r.2.2.filter (!·.2.2)).map (·.2.1)) (DSVocab.childrenOf el)
+
+/-- **every attribute and element name of norad's designspace reader/writer (serde renames of `src/designspace.rs`,
+regenerated on every run) is the designspace specification's name for what the field holds**: axis
+tag/name/minimum/maximum/default/hidden/values, map input/output, source filename/name/familyname/stylename/layer,
+instance name/familyname/stylename/filename/postscriptfontname/stylemapfamilyname/stylemapstylename, dimension
+name/xvalue/yvalue/uservalue, rules processing, rule name, condition name/minimum/maximum, sub name/with; list wrappers;
+`processing` spellings.  A symmetric swap of two renames (invisible to a round trip) fails here. -/
+theorem designspace_attributes_are_spec_attributes :
+    (∀ r ∈ dsFields, dsStructOk r = true) ∧
+    sameSet (dsFields.map (·.1)) (dsStructElement.map (·.1)) = true ∧
+    (∀ w ∈ dsWrappers, (DSVocab.childrenOf w.1).contains w.2 = true) ∧
+    sameSet dsProcessing DSVocab.processingValues = true := by decide
+
+/-! ## tie to the glif builder's models of norad (C02 `encodeGlif`, C12 `parseGlif`) -/
+
+section
+open Glif C05Bridge
+
+/-- **norad's encoder is read by the specification-level reader.**  `encTree f showLib g` is the tree of what
+`Glyph::encode_xml` writes — its canonical event list IS `Glif.encodeGlif f g`, event for event — and in it the
+independent reader finds, under the names of the UFO 3 specification, exactly the glyph `preG f nc g`, i.e. the glyph
+norad's own parser arrives at on the same document (`Glif.parse_encode`: `parseGlif rd (encodeGlif f g) =
+loadObjectLibs (preG f nc g)`).  For every valid glyph (`Glif.ValidGlyph`, the glif builder's validity) whose note does
+not trim to nothing (recorded C02 guard); colours up to their three decimals (`nc`), scales within 2⁻⁵² of 1 and `-0`
+offsets normalised (`normT`), advance `±0`/subnormal as `0` — all inside `preG`. -/
+theorem norad_encoder_read_by_spec_reader {f : Fmt} {lx : Lex} {nc : Color → Color} {ok : Nat → Prop}
+    (hc : LexCodec f lx nc ok) (showLib : Dict → String) (readLib : String → LibV)
+    (hl : ∀ d, readLib (showLib d) = .dict d) {g : Glyph} (hv : ValidGlyph ok g)
+    (hnote : ∀ n, g.note = some n → (trimText n).isEmpty = false) :
+    eventsOf readLib (encTree f showLib g) = encodeGlif f g ∧
+    specRead lx (encTree f showLib g) = some (descGlyph showLib (preG f nc g)) :=
+  ⟨events_of_encTree f showLib readLib hl g, spec_reads_encTree hc showLib hv hnote⟩
+
+/-- the same with norad's parser next to it: on what the encoder writes, the specification-level reader and norad's
+parser see the same glyph (before the object libs are moved out of the lib) -/
+theorem spec_reader_agrees_with_norad_parser {f : Fmt} {lx : Lex} {rd : Str → Option Nat} {nc : Color → Color}
+    {ok : Nat → Prop} (hl : LexCodec f lx nc ok) (hr : Codec f rd nc ok) (showLib : Dict → String) {g : Glyph}
+    (hv : ValidGlyph ok g) (hnote : ∀ n, g.note = some n → (trimText n).isEmpty = false) :
+    parseGlif rd (encodeGlif f g) = loadObjectLibs (preG f nc g) ∧
+    specRead lx (encTree f showLib g) = some (descGlyph showLib (preG f nc g)) :=
+  ⟨parse_encode hr hv, spec_reads_encTree hl showLib hv hnote⟩
+
+/-- **norad's parser reads the specification-level writer**, element by element: the attribute parsers `parseGlif` is
+made of (`parseAnchor`, `parseGuideline`, `parsePoint`, `parseComponent`, `parseImage`, `parseAdvance`, `parseUnicode`,
+the `contour` and `glyph` start tags) return exactly the described values on the attribute lists `Ufo3.specWrite`
+produces (its own attribute order; defaults spelt out: `type="offcurve"`, `smooth="no"`, all six coefficients).
+The composition over a whole document is OPEN (see docs/notes/C05.md). -/
+theorem norad_parser_reads_spec_writer {rd : Str → Option Nat} {rdr : Render} {ok : Nat → Prop}
+    (hc : ParseCodec rd rdr ok) (seen : List Str) :
+    (∀ a : AnchorD, ok a.x → ok a.y → (∀ n, a.name = some n → validName (L n) = true) → okColor ok a.color →
+      FreshId seen (a.identifier.map L) →
+      parseAnchor rd 2 seen (nodeAttrs (writeAnchor rdr a)) =
+        some { x := a.x, y := a.y, name := a.name.map L, color := a.color.map colG, ident := a.identifier.map L }) ∧
+    (∀ (g : GuidelineD) (l : Line), lineOf g = some l → (∀ v, g.x = some v → ok v) → (∀ v, g.y = some v → ok v) →
+      (∀ v, g.angle = some v → ok v ∧ angleOk v = true) → (∀ n, g.name = some n → validName (L n) = true) →
+      okColor ok g.color → FreshId seen (g.identifier.map L) →
+      parseGuideline rd 2 seen (nodeAttrs (writeGuideline rdr g)) =
+        some { line := l, name := g.name.map L, color := g.color.map colG, ident := g.identifier.map L }) ∧
+    (∀ p : PointD, ok p.x → ok p.y → (∀ n, p.name = some n → validName (L n) = true) →
+      FreshId seen (p.identifier.map L) →
+      parsePoint rd 2 seen (nodeAttrs (writePoint rdr p)) =
+        some { x := p.x, y := p.y, typ := ptG p.typ, smooth := p.smooth, name := p.name.map L,
+               ident := p.identifier.map L }) ∧
+    (∀ k : ComponentD, validName (L k.base) = true → okAffine ok k.t → FreshId seen (k.identifier.map L) →
+      parseComponent rd 2 seen (nodeAttrs (writeComponent rdr k)) =
+        some { base := L k.base, transform := trG k.t, ident := k.identifier.map L }) ∧
+    (∀ i : ImageD, imageNameOk (L i.fileName) = true → okAffine ok i.t → okColor ok i.color →
+      parseImage rd (nodeAttrs (writeImage rdr i)) =
+        some { fileName := L i.fileName, color := i.color.map colG, transform := trG i.t }) ∧
+    (∀ w h : Nat, ok w → ok h →
+      parseAdvance rd (attrsL [("width", rdr.nums [w]), ("height", rdr.nums [h])]) = some (w, h)) ∧
+    (∀ (cps : List Nat) (c : Nat), ValidCodepoint c →
+      parseUnicode cps (nodeAttrs (writeUnicode rdr c)) = some (cpInsert cps c)) ∧
+    (∀ cid : Option String, FreshId seen (cid.map L) →
+      parseContourAttrs 2 seen (attrsL (optA "identifier" cid)) = some (cid.map L)) ∧
+    (∀ name : String, validName (L name) = true →
+      parseGlyphAttrs (some (attrsL [("name", name), ("format", "2")])) = .ok (L name, 2)) :=
+  ⟨fun _ hx hy hn hcol hi => norad_parses_spec_anchor hc seen hx hy hn hcol hi,
+   fun _ _ hl hx hy ha hn hcol hi => norad_parses_spec_guideline hc seen hl hx hy ha hn hcol hi,
+   fun _ hx hy hn hi => norad_parses_spec_point hc seen hx hy hn hi,
+   fun _ hb ht hi => norad_parses_spec_component hc seen hb ht hi,
+   fun _ hf ht hcol => norad_parses_spec_image hc hf ht hcol,
+   fun _ _ hw hh => norad_parses_spec_advance hc hw hh,
+   fun cps _ hv => norad_parses_spec_unicode hc cps hv,
+   fun cid hi => norad_parses_spec_contour_attrs seen cid hi,
+   fun _ hn => norad_parses_spec_glyph_attrs hn⟩
+
+/-! non-vacuity of the two codec hypotheses (the glif builder's `F0`, `R0`, `nc0`, `ok0`: every number is 0) -/
+
+def lex0 : Lex :=
+  { nums := fun s => if s = "0" then some [0] else if s = "0,0,0,0" then some [0, 0, 0, 0] else none,
+    hex := fun s => parseHex s.toList }
+
+theorem lexCodec0 : LexCodec F0 lex0 nc0 ok0 := by
+  refine ⟨?_, ?_, ?_⟩
+  · intro b hb; cases hb; decide
+  · intro c
+    have h : showColor F0 c = "0,0,0,0".toList := rfl
+    rw [h]
+    show lex0.nums (S "0,0,0,0".toList) = some [0, 0, 0, 0]
+    decide
+  · intro c hv; simpa [lex0] using parseHex_showCodepoint hv.1 hv.2
+
+def render0 : Render :=
+  { nums := fun ns => if ns.length = 1 then "0" else "0,0,0,0", hex := fun c => String.ofList (showCodepoint c) }
+
+theorem parseCodec0 : ParseCodec R0 render0 ok0 := by
+  refine ⟨?_, ?_, ?_⟩
+  · intro n hn; cases hn; decide
+  · intro c h1 h2 h3 h4
+    obtain ⟨r, g, b, a⟩ := c
+    obtain ⟨h1, _⟩ := h1; obtain ⟨h2, _⟩ := h2; obtain ⟨h3, _⟩ := h3; obtain ⟨h4, _⟩ := h4
+    cases h1; cases h2; cases h3; cases h4; decide
+  · intro c hv; simpa [render0] using parseHex_showCodepoint hv.1 hv.2
+
+-- the element theorems apply (their codec hypothesis is satisfiable)
+example := norad_parser_reads_spec_writer parseCodec0 []
+
+-- the encoder theorem applies to the glif builder's sample glyph `g0` (its hypotheses are satisfiable)
+example : specRead lex0 (encTree F0 (fun _ => "lib") g0) = some (descGlyph (fun _ => "lib") (preG F0 nc0 g0)) :=
+  spec_reads_encTree lexCodec0 (fun _ => "lib") valid_g0 (by intro n hn; cases hn)
+
+end
 
 end C05
